@@ -540,10 +540,11 @@ fn mask_known(ctx: &Ctx, mut out: Outcome) -> Outcome {
 }
 
 /// Run `cases` generated cases of `prop`, split over `workers` threads.
-pub fn run_prop<P, S>(ctx: &Ctx, prop: &P, strat: &S, cases: u64, workers: usize)
+pub fn run_prop<P, S, M>(ctx: &Ctx, prop: &P, mk: M, cases: u64, workers: usize)
 where
     P: Prop,
-    S: Strategy<Value = P::Case> + Sync,
+    S: Strategy<Value = P::Case>,
+    M: Fn() -> S + Sync,
 {
     let workers = workers.max(1);
     let per = cases.div_ceil(workers as u64);
@@ -551,7 +552,10 @@ where
     std::thread::scope(|scope| {
         for w in 0..workers {
             let stop = &stop;
+            let mk = &mk;
             scope.spawn(move || {
+                let strat = mk();
+                let strat = &strat;
                 let wseed = mix(mix(ctx.seed, hash64(&(ctx.id.as_str(), prop.sub()))), w as u64);
                 let cfg = Config {
                     cases: per as u32,
